@@ -312,6 +312,25 @@ def sequencer_specific(ctx):
         except Exception as exc:
             ctx.fail('from_bytes(bytes) == message', K_SEQ, case, f'{type(exc).__name__}: {exc}')
         n += 1
+    # whatever container the data came in: encoding does not touch the message - encoding twice gives the
+    # same bytes (the reference's), the data is what it was, and messages created later are not affected
+    for data in ([1, 2, 3], [], (4, 5), bytearray(b'\x07\x08'), None):
+        case = {'kind': 'seqspec', 'data': repr(data), 'what': 'encode twice'}
+        try:
+            m = MetaMessage('sequencer_specific', time=2) if data is None else MetaMessage('sequencer_specific', data=data, time=2)
+            before = list(m.data)
+            ref = rmeta.encode('sequencer_specific', {'data': tuple(before)})
+            b1, b2 = m.bytes(), m.bytes()
+            fresh = MetaMessage('sequencer_specific')
+            ctx.check('bytes == FF type VLQ(len) payload (reference)', list(b1) == list(ref) and list(b2) == list(ref)
+                      and list(m.data) == before and list(fresh.data) == [] and list(fresh.bytes()) == [0xFF, 0x7F, 0],
+                      'seqspec-encoding-touches-the-message', case,
+                      lambda: {'first': list(b1)[:12], 'second': list(b2)[:12], 'data_after': list(m.data)[:12],
+                               'fresh_default_data': list(fresh.data)[:12]})
+        except Exception as exc:
+            ctx.fail('bytes == FF type VLQ(len) payload (reference)', f'seqspec-encode-twice:{type(exc).__name__}', case,
+                     f'{type(exc).__name__}: {exc}')
+        n += 1
     # default
     case = {'kind': 'seqspec', 'data': 'default'}
     m = MetaMessage('sequencer_specific')
